@@ -620,6 +620,7 @@ class C44(Check):
         "time-only datetime texts: only the time of day is asserted, the date is the implementation's choice",
         "state of the target option after a rejected parse is not asserted",
         "process locale is C (English day/month names)",
+        "single-dash spelling -n=v is undocumented: rejection would be tolerated (EITHER), a wrong value not",
     ]
 
     def partitions(self, tier):
@@ -660,8 +661,15 @@ class C44(Check):
                         if tname == "str" and not multiple:
                             continue      # identical to cfg-str
                         e = (repr(entry[1]), entry[1], "ok", "literal")
+                    single_dash = channel == "d-eq" and e[2] == "ok"
+                    if single_dash:
+                        # "-n=v" is accepted by the code but neither documented nor pinned by a
+                        # test: EITHER on rejection, the value is still asserted when accepted
+                        e = (e[0], e[1], "either", e[3])
                     probs, got = self._one(opts, ctx, tier, tname, multiple, name, defkind, typegiven,
                                            default, channel, e, st, base_sigs)
+                    if single_dash:
+                        st.note("either:single-dash-option:%s" % ("rejected" if got is NOVAL else "accepted"))
                     if channel == "dd-eq":
                         base_sigs = {s for s, _ in probs}
                         if e[2] == "either":
